@@ -128,8 +128,8 @@ def exec (sv : Server) (id : String) (now : Int) : Server × List Tok :=
     sv.setConn id { (sv.conn id) with state := 0, queue := [] }
   if c.state % 2 ≠ 1 then (reset sv, [Tok.err 0]) else
   if (c.state / 4) % 2 = 1 then (reset sv, [Tok.err 2]) else
-  if c.queue.isEmpty then (reset sv, [Tok.arr 0]) else
   if c.watch.any (·.2) then (reset sv, [Tok.nullBulk]) else
+  if c.queue.isEmpty then (reset sv, [Tok.arr 0]) else
   let sv := sv.setConn id { c with state := c.state + multiCommit - (if (c.state / 2) % 2 = 1 then multiCommit else 0) }
   let (sv, toks) := c.queue.foldl (fun (acc : Server × List Tok) b =>
       let (sv, ts) := runBody acc.1 now none b
